@@ -164,6 +164,14 @@ func sharingConfigs(env *engine.Env) []fixture.Doc {
 	// a changelog together with a content entry at the path of the changelog deb generates: deb refuses it, the
 	// other formats ship the entry
 	docs = append(docs, mk(append([]model.Entry{{Src: "doc/README", Dst: "/usr/share/doc/pkg/changelog.Debian.gz"}}, plain...), func(d fixture.Doc) { d["changelog"] = t.P("changelog.yaml") }))
+	// relations with alternatives (a | b), ipk alternatives whose paths are not in clean form, rpm prefixes likewise
+	docs = append(docs, mk(plain, func(d fixture.Doc) {
+		d["depends"] = []any{"mta | sendmail", "libfoo (>= 1.0) | libfoo-compat", "plain"}
+		d["recommends"] = []any{"editor | vi"}
+		d["provides"] = []any{"virt-a | virt-b"}
+		d["ipk"] = map[string]any{"alternatives": []any{map[string]any{"priority": 100, "target": "usr/bin/vi", "link_name": "/usr/bin//x"}, map[string]any{"priority": 50, "target": "/usr/./bin/app", "link_name": "bin/editor/"}}}
+		d["rpm"] = map[string]any{"buildhost": "buildhost.example", "prefixes": []any{"usr//local", "/opt/./x/"}}
+	}))
 	// an override block that replaces the contents, its list holding entries addressed to single packagers
 	docs = append(docs, mk(plain, func(d fixture.Doc) {
 		oc := fixture.ContentsYAML(specs([]model.Entry{{Src: "bin/app", Dst: "/usr/bin/app"}, {Src: "etc/app.conf", Dst: "/etc/only-rpm.conf", Packager: "rpm", Type: "config"}, {Src: "etc/app.conf", Dst: "/etc/only-deb.conf", Packager: "deb", Type: "config"}, {Src: "etc/app.conf", Dst: "/etc/only-apk.conf", Packager: "apk"}, {Dst: "/var/lib/from-override", Type: "dir", HasInfo: true, Owner: "app"}}), t.Root)
